@@ -245,15 +245,19 @@ func (runInfo *runInfoStruct) invokeLetItemExpr(expr *ast.ItemExpr) {
 		return
 	}
 	item := runInfo.rv
+	if item.Kind() == reflect.Interface && !item.IsNil() {
+		item = item.Elem()
+	}
+	if k := item.Kind(); k == reflect.Slice || k == reflect.Map {
+		// the store goes into the slice or map read before the index operand runs (an array
+		// or a string stays the place it is: the store has to reach that place)
+		item = detachValue(item)
+	}
 
 	runInfo.expr = expr.Index
 	runInfo.invokeExpr()
 	if runInfo.err != nil {
 		return
-	}
-
-	if item.Kind() == reflect.Interface && !item.IsNil() {
-		item = item.Elem()
 	}
 
 	switch item.Kind() {
